@@ -55,13 +55,16 @@ def _interval_new(ctx) -> None:
         sec = k.get("seconds")
         v = cfg.subst_path(p, sec, set()) if sec is not None else None
         s = nun(v) if v is not None else "<none>"
-        ctx.ob("FLOW.duration", "Interval.__new__/seconds", s.endswith(".total_seconds()") and set(k) == {"seconds"}
-               and len(ret.args) == 1,
-               f"Duration built with {sorted(k)} = `{s[-40:]}`; must be seconds=<difference>.total_seconds()", m.loc(ex[2]))
-        if not (isinstance(v, ast.Call) and isinstance(v.func, ast.Attribute) and isinstance(v.func.value, ast.BinOp)):
+        # the exact form: days / seconds / microseconds of one difference; the older one: its total_seconds() (exact up to 2**53 microseconds)
+        parts = {a: cfg.subst_path(p, k[a], set()) for a in ("days", "seconds", "microseconds") if a in k}
+        three = set(k) == {"days", "seconds", "microseconds"} and all(isinstance(x, ast.Attribute) and x.attr == a for a, x in parts.items()) \
+            and len({nun(x.value) for x in parts.values()}) == 1
+        ctx.ob("FLOW.duration", "Interval.__new__/seconds", (three or (s.endswith(".total_seconds()") and set(k) == {"seconds"})) and len(ret.args) == 1,
+               f"Duration built with {sorted(k)} = `{s[-40:]}`; must be the days, seconds and microseconds of the difference (or seconds=<difference>.total_seconds())", m.loc(ex[2]))
+        d = parts["seconds"].value if three else v.func.value if (isinstance(v, ast.Call) and isinstance(v.func, ast.Attribute)) else None
+        if not isinstance(d, ast.BinOp):
             ctx.unverified("FLOW.delta", "Interval.__new__/delta", f"`{s[:80]}`", m.loc(ex[2]))
             continue
-        d = v.func.value
         swapped = p.holds("absolute") is True and (p.holds("start > end") is True or p.holds("_is_after(start, end)") is True)
         S, E = ("end", "start") if swapped else ("start", "end")
         left, right = nun(d.left), nun(d.right)
@@ -357,8 +360,9 @@ def _totals(ctx) -> None:
                f"returns `{[nun(x.value) for x in r]}`; must be int(self.total_{u}()) (truncation toward zero)", m.loc(fn))
 
 
-def _length_tabulate(ctx) -> None:
-    """LENGTH.tabulated: Interval.__new__ (and the ordering helper it uses) run by the checker's interpreter on standard-library
+def _length_tabulate(ctx, exact: bool = False) -> None:
+    """LENGTH.tabulated (exact=True, used by C06: LENGTH.exact - only the pairs C06 speaks of, naive / UTC / date pairs, and every length
+    exact; C05 itself allows 64 microseconds beyond 2**33 seconds, where a float of seconds is used): Interval.__new__ (and the ordering helper it uses) run by the checker's interpreter on standard-library
     values: naive pairs, date pairs, aware pairs sharing one zoneinfo object inside and around a repeated and a skipped hour
     (both folds - the standard library compares and subtracts such pairs on their wall clock only), aware pairs in different
     zones and with fixed offsets, forward and reversed, absolute or not.  The number of seconds handed to the Duration
@@ -390,7 +394,9 @@ def _length_tabulate(ctx) -> None:
         pass
     # two distinct but equal tzinfo objects
     aw += [D(2021, 6, 1, 12, 0, tzinfo=_dt.timezone(_dt.timedelta(hours=1))), D(2021, 6, 1, 18, 0, tzinfo=_dt.timezone(_dt.timedelta(hours=1)))]
-    nv = [D(2021, 1, 31, 0, 0), D(2021, 3, 1, 12, 30, 15, 250000), D(2020, 2, 29, 23, 59, 59, 999999), D(2020, 2, 29, 23, 59, 59, 999998)]
+    nv = [D(2021, 1, 31, 0, 0), D(2021, 3, 1, 12, 30, 15, 250000), D(2020, 2, 29, 23, 59, 59, 999999), D(2020, 2, 29, 23, 59, 59, 999998),
+          D(1000, 1, 1, 0, 0, 0, 1), D(2500, 6, 15, 13, 14, 15, 999999), D(9999, 12, 31, 23, 59, 59, 999999)]       # lengths beyond 2**53 microseconds (a float of seconds cannot hold them)
+    aw += [D(1, 1, 1, 0, 0, 0, 7, tzinfo=utc), D(9999, 12, 31, 23, 59, 59, 999999, tzinfo=utc)]
     dates = [_dt.date(2021, 1, 31), _dt.date(2021, 3, 1), _dt.date(2020, 2, 29)]
     bad, n = [], 0
 
@@ -402,6 +408,8 @@ def _length_tabulate(ctx) -> None:
         return minieval.Stub(_types=(_dt.date,), _pend="Date", _native=x, _eqkey=x, year=x.year, month=x.month, day=x.day)
     try:
         funcs = {st.name: st for st in m.top() if isinstance(st, ast.FunctionDef)}
+        if exact:
+            aw = [x for x in aw if x.tzinfo is utc]
         for group, wrap in ((aw, None), (nv, None), (dates, None), (aw, pend), (nv, pend), (dates, pend)):
             for a0 in group:
                 for b0 in group:
@@ -434,7 +442,8 @@ def _length_tabulate(ctx) -> None:
                             want = b0 - a0
                         if absolute:
                             want = abs(want)
-                        if secs != want:
+                        slack = _dt.timedelta(0) if exact or abs(want) < _dt.timedelta(seconds=2 ** 33) else _dt.timedelta(microseconds=64)
+                        if abs(secs - want) > slack:
                             bad.append(f"{label}: built with {k} = {secs} (elapsed: {want})")
         for a, b, exc in ((nv[0], aw[0], "TypeError"), (aw[0], nv[0], "TypeError"), (dates[0], nv[0], "ValueError"), (nv[0], dates[0], "ValueError")):
             n += 1
@@ -451,11 +460,11 @@ def _length_tabulate(ctx) -> None:
                 if exc != "TypeError":
                     bad.append(f"Interval({a!r}, {b!r}) raises TypeError (expected {exc})")
     except (core.Unsupported, KeyError, AttributeError, IndexError, RecursionError, ValueError, TypeError) as e:
-        ctx.unverified("LENGTH.tabulated", "Interval.__new__", f"outside the checker's interpreter: {type(e).__name__}: {e}", m.loc(fn))
+        ctx.unverified("LENGTH.exact" if exact else "LENGTH.tabulated", "Interval.__new__", f"outside the checker's interpreter: {type(e).__name__}: {e}", m.loc(fn))
         return
-    ctx.ob("LENGTH.tabulated", "Interval.__new__", not bad, f"{n} pairs evaluated: " + (f"wrong: {bad[:3]}" if bad else
-           "the Duration is built from the exact elapsed time between the two instants"), m.loc(fn))
-    if not bad:
+    ctx.ob("LENGTH.exact" if exact else "LENGTH.tabulated", "Interval.__new__", not bad, f"{n} pairs evaluated: " + (f"wrong: {bad[:3]}" if bad else
+           "the Duration is built from the exact elapsed time between the two instants" + ("" if exact else " (within 64 microseconds beyond 2**33 seconds)")), m.loc(fn))
+    if not bad and not exact:
         ctx.established(("FLOW",), "Interval.__new__", "LENGTH.tabulated")
 
 
